@@ -69,6 +69,7 @@ def _compress(case, ob):
         "unit": case["unit"],
         "pre": case["pre"],
         "memo": case["memo"],
+        "sync": case.get("sync", "insync"),
         "chain": case["chain"],
         "order": case["order"],
         "fups": [f["f"] for f in ob["fups"]],
@@ -132,8 +133,8 @@ def _validate(ck, cases, obs, label):
         ck.validated(len(pc))
         for r in res.by_tag("T-FAIL"):
             c = pc[r["tid"] - 1]
-            _dump({"drift": r["op"], "cls": c["cls"], "reg": c["reg"], "unit": c["unit"], "pre": c["pre"], "memo": c["memo"], "chain": c["chain"], "order": c["order"], "model": r["model"], "observed": r["observed"]})
-            ck.drift_step(r["op"], {"case": {k: c[k] for k in ("cls", "reg", "unit", "pre", "memo", "chain", "order")}, "model": r["model"], "observed": r["observed"]})
+            _dump({"drift": r["op"], "cls": c["cls"], "reg": c["reg"], "unit": c["unit"], "pre": c["pre"], "memo": c["memo"], "sync": c.get("sync", "insync"), "chain": c["chain"], "order": c["order"], "model": r["model"], "observed": r["observed"]})
+            ck.drift_step(r["op"], {"case": {k: c[k] for k in ("cls", "reg", "unit", "pre", "memo", "sync", "chain", "order")}, "model": r["model"], "observed": r["observed"]})
         for r in res.by_tag("P-FAIL"):
             c = pc[r["tid"] - 1]
             o = po[r["tid"] - 1]
@@ -147,6 +148,8 @@ def _validate(ck, cases, obs, label):
                 "unit": c["unit"],
                 "pre": c["pre"],
                 "memo": c["memo"],
+                "sync": c.get("sync", "insync"),
+                "unitchg": r["unitchg"],
                 "dim": ud[2],
                 "offset": float.fromhex(ud[1]) != 0.0,
                 "extra": r["extra"],
@@ -169,7 +172,7 @@ def _validate(ck, cases, obs, label):
 
                     detail["rows"] = {w: [a, b] for w, a, b in zip(impl_c11.WATCH_SYMS, o["orig"]["rows"], s["rows"]) if a != b}
             _dump({"key": key, "chain": c["chain"], "order": c["order"]})
-            ck.violation(key, detail, case={k: c[k] for k in ("cls", "reg", "unit", "pre", "memo", "chain", "fups", "order")})
+            ck.violation(key, detail, case={k: c[k] for k in ("cls", "reg", "unit", "pre", "memo", "sync", "chain", "fups", "order")})
 
 
 def _validate_multi(ck, cases, obs, label):
@@ -232,7 +235,7 @@ def _mnontrivial(h):
 def _cases_from(res, pred=None):
     out = []
     for r in res.by_tag("CASE"):
-        c = {"cls": r["cls"], "reg": r["reg"], "unit": r["unit"], "pre": r["pre"], "memo": r["memo"], "chain": list(r["chain"]), "fups": list(r["fups"]), "order": r["order"]}
+        c = {"cls": r["cls"], "reg": r["reg"], "unit": r["unit"], "pre": r["pre"], "memo": r["memo"], "sync": r["sync"], "chain": list(r["chain"]), "fups": list(r["fups"]), "order": r["order"]}
         if not c["fups"]:
             # the transcription says the chain does not complete: replay it with the whole battery anyway
             c["fups"] = None
@@ -241,7 +244,7 @@ def _cases_from(res, pred=None):
     return out
 
 
-NTHREADS = 6
+NTHREADS = 8
 
 
 def run(ck):
@@ -251,6 +254,8 @@ def run(ck):
     ck.assumptions += [
         "objects: unyt_quantity (90.0), unyt_array ([0.5, 2.0, 90.0]) and Unit over 21 unit names; registries: the default registry, and custom registries built per case with added (foo), prefixable (pfoo), offset (ofoo), angle (afoo), logarithmic (lfoo) symbols, a modified default symbol (mile), their own 'code' unit system, (customcgs) unit_system='cgs', and (customrm) built-in symbols removed (t, rad) or removed and re-added with another dimension (bar)",
         "pre-persist history chosen by TLC: registry id / code unit system computed after (idlast) or before (idfirst) the first use of prefixed symbols; unit built from the spelling str(unit) (string memo warm) or from another spelling (cold)",
+        "out-of-sync objects (chosen by TLC): every symbol of the unit re-valued with registry.modify after the object was created, or the unit built with explicit values under a registered name, string memo warm or cold; sent through the object-carrying paths only (copies, deep copies, pickle of Unit); name-carrying routes and conversions into the code unit system are not demanded for them",
+        "savetxt/loadtxt call forms generated by TLC: columns (1, 2, 3 with a bare ndarray) x user header (none, two lines, containing a 'Units' marker line, unit-like words) x footer (none, word, unit-like words, marker + unit line, number) x delimiter (tab, comma, blank) x usecols; fmt and comments at their defaults",
         "several objects: two originals in two registries with the same user symbols (stock / re-valued mile / added foo), restores by pickle, reload of the same bytes, deepcopy, json, and registry edits of any object in between, every order up to 3 (quick) / 4 (thorough) steps",
         "every follow-up pair starts from empty process-wide lru memos; the baseline is the follow-up on the pristine original before anything was persisted",
         "floats are projected to hex strings; a restored-side number within 1e-12 relative of the original-side number is reported as equal (snap)",
@@ -268,6 +273,7 @@ def run(ck):
         else:
             case.setdefault("pre", "idlast")
             case.setdefault("memo", "warm")
+            case.setdefault("sync", "insync")
             cases = [case]
             obs = ck.pmap("impl_c11", "observe", cases, nproc=1)
             _validate(ck, cases, obs, "replay")
@@ -276,8 +282,8 @@ def run(ck):
     # ---- 1. TLC generates the histories (independent instances, run side by side) ----
     n_sim = ck.q(60, 1500)
     single = ck.q(
-        [("MC_C11_quick1", None), ("MC_C11_quick2", 2), ("MC_C11_pre", None)],
-        [("MC_C11_full1", None), ("MC_C11_full2", 2), ("MC_C11_prefull", None)],
+        [("MC_C11_quick1", None), ("MC_C11_quick2", 2), ("MC_C11_pre", None), ("MC_C11_stale", None), ("MC_C11_sv", None)],
+        [("MC_C11_full1", None), ("MC_C11_full2", 2), ("MC_C11_prefull", None), ("MC_C11_stale", None), ("MC_C11_svfull", None)],
     )
     multi = ck.q(["MC_C11_multi_quick"], ["MC_C11_multi_full3", "MC_C11_multi_full4"])
 
